@@ -315,11 +315,17 @@ def mutants(fmt, doc):
                 out.append((d, "missing-required-key", f"required key {k} removed at {'/'.join(map(str, tp)) or '<root>'}"))
     for sp in scalars(doc):
         cur = get(doc, sp)
-        for alt in RETYPE["bool" if isinstance(cur, bool) else "str"]:
+        alts = list(RETYPE["bool" if isinstance(cur, bool) else "str"])
+        # a scalar given as a table: empty, and keyed by the scalar's own value (the map form serde accepts for enums)
+        alts.append(("t", {}))
+        if isinstance(cur, str) and cur:
+            alts.append(("t", {cur: ("t", {})}))
+        for alt in alts:
             d = copy.deepcopy(doc)
             parent = get(d, sp[:-1])
             parent[sp[-1]] = Raw(alt)
-            out.append((d, "wrong-kind", f"{'/'.join(map(str, sp))} retyped to {alt}"))
+            kind = "wrong-kind" if alt[0] != "t" else f"scalar-given-as-table:{names_only(sp)}"
+            out.append((d, kind, f"{'/'.join(map(str, sp))} retyped to {alt}"))
     if fmt == "buildpack-component" and (doc.get("stacks") or doc.get("targets")):
         d = copy.deepcopy(doc)
         d["order"] = [{"group": [{"id": "a/b", "version": "0.0.1"}]}]
@@ -405,7 +411,7 @@ def run(ctx):
     res.cov("mutants", n_mut)
     res.cov("mutants_by_kind", kinds)
     res.cov("distinct_nontrivial", n_mut)
-    res.cov("rule", "valid corpus: for each of 7 formats the full document, the minimal document and, one table at a time, every subset of that table's optional keys removed; mutants (each applied to a valid document, one at a time): zzz=1 inserted into every table / array-of-tables element outside metadata, every required key deleted, every scalar (incl. string-array elements) retyped to each other kind and to [], order added to a component with stacks/targets, targets/stacks added to a composite; on the full and the minimal document additionally: every word of the spec's vocabulary (keys of all formats, earlier API versions, sibling descriptors) inserted as an unknown key into every table, every required key renamed to every vocabulary word, every table position given as array / string / datetime, every array of tables given as a single table, free-form metadata given as datetime / string / array / integer. Valid => accepted, classified and every field equal to the document with spec defaults; mutant => rejected. non-trivial = mutants")
+    res.cov("rule", "valid corpus: for each of 7 formats the full document, the minimal document and, one table at a time, every subset of that table's optional keys removed; mutants (each applied to a valid document, one at a time): zzz=1 inserted into every table / array-of-tables element outside metadata, every required key deleted, every scalar (incl. string-array elements) retyped to each other kind, to [], to {} and to a table keyed by its own value, order added to a component with stacks/targets, targets/stacks added to a composite; on the full and the minimal document additionally: every word of the spec's vocabulary (keys of all formats, earlier API versions, sibling descriptors) inserted as an unknown key into every table, every required key renamed to every vocabulary word, every table position given as array / string / datetime, every array of tables given as a single table, free-form metadata given as datetime / string / array / integer. Valid => accepted, classified and every field equal to the document with spec defaults; mutant => rejected. non-trivial = mutants")
     res.cov("bound", {"mutated_valid_documents": "all" if ctx.thorough else "full + minimal + every 5th case"})
     res.cov("exhaustive", True)
     res.assume("schema = Buildpack API 0.10 as restated in DESIGN C08; pinned keys (distro name/version, store.metadata, platform.os when [platform] is given, non-empty order/group) are always present and never deleted")
